@@ -7,15 +7,28 @@ import lib
 
 RULE = ("complete files written by GroFile from generated runs (1..12 records, all four velocities x declared-count "
         "combinations, decimals 1..6 or default, three box shapes, random titles): every byte prefix; crash points of the "
-        "same kind of runs: the file after every writeline, before close and after each file operation of close (count "
-        "back-fill, seek, box write, newline), in S additionally after every single write/seek call of the file object; "
+        "same kind of runs: the file after every proper prefix of the operation list (each writeline, before close, after the "
+        "count back-fill, after the seek), in S additionally after every single write/seek call of the file object; "
         "shipped .gro files of gaddlemaps/data: every prefix of the files below 3 kB (thorough: below 12 kB), and line "
         "boundaries +-3 bytes plus random cuts of the larger ones. A case (file, cut) is non-trivial when distinct.")
 
 DATA = os.path.join(lib.REPO, "gaddlemaps", "data")
 
 
+MAX_REPORTS = 25
+
+
+def report(ctx, what, replay_obj, key):
+    """at most MAX_REPORTS replay files per run (every failure is still counted)"""
+    ctx.cov["S"]["violating_inputs"] = ctx.cov["S"].get("violating_inputs", 0) + 1
+    if ctx.cov["S"]["violating_inputs"] <= MAX_REPORTS:
+        ctx.violation(what, replay_obj, key=key)
+
+
 # ------------------------------------------------------------------ S oracle (property text)
+# Every partial file is written to ONE path (gc.read_text), and the complete file is opened at that path
+# first (full_read): a reader that remembers anything about a path it has verified (layout, size, box)
+# is thereby asked about a file that was complete and is now partial, within one process.
 def box_line_start(text):
     """offset of the first byte of the last line (the box line) of a complete file"""
     body = text[:-1] if text.endswith("\n") else text
@@ -41,7 +54,8 @@ def full_read(text):
 
 
 def oracle_crash(conf, recs):
-    """crash points of one writer run, at the granularity of the file object's calls"""
+    """crash points of one writer run: every proper prefix of the operation list, and (finer) the file
+    after every single write/seek call of the file object that is followed by another write call"""
     path = os.path.join(gc.tmpdir(), "s14w.gro")
     ops, fine = gc.run_writer_snapshots(path, conf, recs)
     full = ops[-1][1]
@@ -49,15 +63,15 @@ def oracle_crash(conf, recs):
     bad = []
     if fa is None:
         return ["the complete file is not readable"], ops, fa
-    states = [("pre-box", t) for j, t in ops[:len(recs) + 3]] + fine
+    states = [("partial", t) for j, t in ops[:-1]] + fine
     seen = set()
     for label, t in states:
         if (label, t) in seen:
             continue
         seen.add((label, t))
         obs = gc.read_text(t)
-        if label == "pre-box" and obs[0] == "ok":
-            bad.append("a file left by a writer that stopped before writing the box line (%d bytes of %d) was accepted"
+        if label == "partial" and obs[0] == "ok":
+            bad.append("a file left by a writer that stopped before its last operation (%d bytes of %d) was accepted"
                        % (len(t), len(full)))
         elif obs[0] == "ok" and obs[3] != fa:
             bad.append("an accepted partial file (%d bytes) returned other atom records than the complete file" % len(t))
@@ -140,14 +154,14 @@ def check_run(ctx, conf, recs, where):
     """S on one writer run: every byte prefix of its complete file and its crash points"""
     bad, ops, fa = oracle_crash(conf, recs)
     for b in bad:
-        ctx.violation("crash point: " + b, {"kind": "crash", "case": gc.case_json(conf, recs)}, key="crash")
+        report(ctx, "crash point: " + b, {"kind": "crash", "case": gc.case_json(conf, recs)}, "crash")
     full = ops[-1][1]
     obs_all = []
     for k in range(len(full) + 1):
         b, obs = oracle_cut(full, k, fa)
         obs_all.append((k, obs))
         if b:
-            ctx.violation("truncation: " + b, {"kind": "cut", "case": gc.case_json(conf, recs), "cut": k}, key="cut")
+            report(ctx, "truncation: " + b, {"kind": "cut", "case": gc.case_json(conf, recs), "cut": k}, "cut")
     ctx.cov["S"][where] = ctx.cov["S"].get(where, 0) + len(full) + 1 + len(ops)
     return ops, fa, full, obs_all
 
@@ -206,7 +220,7 @@ def correspondence(ctx):
             obs.append((k, o))
             ctx.count(("ship", name, k))
             if b:
-                ctx.violation("truncation of shipped %s: %s" % (name, b), {"kind": "shipped", "file": name, "cut": k}, key="cut")
+                report(ctx, "truncation of shipped %s: %s" % (name, b), {"kind": "shipped", "file": name, "cut": k}, "cut")
         ctx.cov["S"]["shipped_partial_files"] = ctx.cov["S"].get("shipped_partial_files", 0) + len(cuts)
         hist["shipped:" + name] = len(cuts)
         if len(text) <= 12000:
@@ -265,12 +279,12 @@ def oracle(ctx, scale):
     S = ctx.cov["S"]
     n = ctx.n(60, 1200) * scale
     runs = gen_runs(ctx, rs, n)
-    before = len(ctx.violations)
+    before = S.get("violating_inputs", 0)
     for conf, recs in runs:
         check_run(ctx, conf, recs, "oracle_partial_files")
         ctx.count(("srun", repr(conf), repr(recs)))
     S["oracle_runs_x%d" % scale] = len(runs)
-    S["failures"] = S.get("failures", 0) + len(ctx.violations) - before
+    S["failures"] = S.get("failures", 0) + S.get("violating_inputs", 0) - before
 
 
 def replay(ctx, obj):
@@ -299,9 +313,9 @@ def finish(ctx):
         "a crash leaves on disk what the file object had been given up to the last completed operation (every operation "
         "flushed); partially flushed buffers are covered by the byte-prefix clause only when the count was declared",
         "writer runs are the runs that would complete: the declared count, when given, equals the number of records",
-        "the crash point between writing the box text and its final newline leaves a file that IS accepted, with exactly "
-        "the complete file's records and box (the property's second sentence allows it); the theorems and the oracle demand "
-        "rejection only before the box line is written",
+        "a byte prefix that contains the whole box text but not its end of line is accepted, with exactly the complete "
+        "file's records (allowed by the property's second sentence); no crash point of the operation list produces it, "
+        "the box line and its newline being one write",
         "ASCII text without carriage returns; text-mode tell/seek are byte offsets; decimal values as in C13",
     ]
     return ctx.finish(level="proof", rule=RULE,
